@@ -59,12 +59,27 @@ def check(world, ob, timeout_ms=5000, depth=2, use_cvc5=True, cvc5_timeout_s=10,
     # then the full budget
     # (the last, full-budget attempt uses the default seed again: verdicts must not depend on an unlucky seed when the
     #  machine is busy and the short attempts were cut off)
-    plan = [(min(timeout_ms, 3000), 0), (min(timeout_ms, 6000), 7), (timeout_ms, 0), (min(timeout_ms, 15000), 13)]
+    plan = [(min(timeout_ms, 3000), 0), (min(timeout_ms, 8000), 7), (timeout_ms, 0), (min(timeout_ms, 15000), 13)]
     if quick_only:
         plan = plan[:1]
     tried_cvc5 = False
+    if depth > 1 and not quick_only and not prefer_cvc5:
+        # ascending depth: most obligations need only one level of definitions, and the smaller query is decided in a fraction of the
+        # time (less sensitive to machine load).  `unsat` with fewer axioms is a proof; anything else says nothing: go on at full depth.
+        try:
+            ax1 = world.close(base, depth=1)
+            s1 = z3.Solver()
+            for a in base:
+                s1.add(a)
+            for a in ax1:
+                s1.add(a)
+            if timed_check(s1, min(timeout_ms, 3000)) == z3.unsat:
+                return dict(result='proved', backend=f'z3-{z3.get_version_string()}', time=round(time.time() - t0, 4), model=None, z3model=None,
+                            n_axioms=len(ax1), second=None)
+        except Exception:
+            pass
     for k_, (tmo, seed) in enumerate(plan):
-        if k_ == (0 if prefer_cvc5 else 1) and not tried_cvc5 and use_cvc5 and not quick_only and os.path.exists(CVC5):
+        if k_ == (0 if prefer_cvc5 else 2) and not tried_cvc5 and use_cvc5 and not quick_only and os.path.exists(CVC5):
             if k_ == 0:
                 s = z3.Solver()
                 for a in base:
